@@ -1,1 +1,211 @@
-pub fn run(_rest: &str) -> String { "todo".into() }
+//! `ws <json>`: build an in-memory workspace on a real `AnalysisHost` and run queries.
+//! {"files": {"/a.td": "..."}, "root": "/a.td", "include_dir": null|"/inc",
+//!  "queries": [["diagnostics"], ["document_symbol","/a.td"], ["goto","/a.td",5], ...]}
+//! Answer: JSON array, one entry per query; a panicking query yields {"panic": msg}.
+use std::collections::HashMap;
+use std::path::Path;
+use std::sync::Arc;
+
+use ide::analysis::{Analysis, AnalysisHost};
+use ide::file_system::{FileId, FilePath, FilePosition, FileRange, FileSet, FileSystem};
+use ide::handlers::document_symbol::DocumentSymbol;
+use serde_json::{json, Value};
+use text_size::{TextRange, TextSize};
+
+#[derive(Default)]
+pub struct MemFs {
+    pub files: HashMap<FilePath, String>,
+    pub set: FileSet,
+    pub next: u32,
+    pub paths: Vec<(FileId, String)>,
+}
+
+impl MemFs {
+    pub fn path_str(&self, id: FileId) -> String {
+        self.paths
+            .iter()
+            .find(|(i, _)| *i == id)
+            .map(|(_, p)| p.clone())
+            .unwrap_or_else(|| format!("?{}", id.0))
+    }
+    pub fn id_of(&self, p: &str) -> Option<FileId> {
+        self.set.file_for_path(&FilePath::from(Path::new(p)))
+    }
+}
+
+impl FileSystem for MemFs {
+    fn assign_or_get_file_id(&mut self, path: FilePath) -> FileId {
+        if let Some(id) = self.set.file_for_path(&path) {
+            return id;
+        }
+        let id = FileId(self.next);
+        self.next += 1;
+        self.paths.push((id, path.0.to_string_lossy().to_string()));
+        self.set.insert(id, path);
+        id
+    }
+    fn path_for_file(&self, file_id: &FileId) -> &FilePath {
+        self.set.path_for_file(file_id)
+    }
+    fn read_content(&self, p: &FilePath) -> Option<String> {
+        self.files.get(p).cloned()
+    }
+}
+
+pub fn fr(fs: &MemFs, r: FileRange) -> Value {
+    json!([fs.path_str(r.file), u32::from(r.range.start()), u32::from(r.range.end())])
+}
+
+fn sym(s: &DocumentSymbol) -> Value {
+    json!({"name": s.name.to_string(), "typ": s.typ.to_string(), "kind": format!("{:?}", s.kind),
+           "range": [u32::from(s.range.start()), u32::from(s.range.end())],
+           "children": s.children.iter().map(sym).collect::<Vec<_>>()})
+}
+
+pub fn query(an: &Analysis, fs: &MemFs, q: &Value) -> Value {
+    let name = q[0].as_str().unwrap_or("");
+    let file = |i: usize| -> Option<FileId> { q[i].as_str().and_then(|p| fs.id_of(p)) };
+    let num = |i: usize| -> u32 { q[i].as_u64().unwrap_or(0) as u32 };
+    match name {
+        "diagnostics" => {
+            let mut m: Vec<(String, Value)> = an
+                .diagnostics()
+                .into_iter()
+                .map(|(f, ds)| {
+                    (
+                        fs.path_str(f),
+                        Value::Array(
+                            ds.iter()
+                                .map(|d| json!([fs.path_str(d.location.file), u32::from(d.location.range.start()), u32::from(d.location.range.end()), d.message]))
+                                .collect(),
+                        ),
+                    )
+                })
+                .collect();
+            m.sort_by(|a, b| a.0.cmp(&b.0));
+            Value::Array(m.into_iter().map(|(k, v)| json!([k, v])).collect())
+        }
+        "document_symbol" => match file(1) {
+            None => json!("no-file"),
+            Some(f) => match an.document_symbol(f) {
+                None => Value::Null,
+                Some(v) => Value::Array(v.iter().map(sym).collect()),
+            },
+        },
+        "folding_range" => match file(1) {
+            None => json!("no-file"),
+            Some(f) => match an.folding_range(f) {
+                None => Value::Null,
+                Some(v) => Value::Array(v.iter().map(|r| json!([u32::from(r.range.start()), u32::from(r.range.end())])).collect()),
+            },
+        },
+        "document_link" => match file(1) {
+            None => json!("no-file"),
+            Some(f) => match an.document_link(f) {
+                None => Value::Null,
+                Some(v) => Value::Array(
+                    v.iter()
+                        .map(|l| json!([u32::from(l.range.start()), u32::from(l.range.end()), fs.path_str(l.target)]))
+                        .collect(),
+                ),
+            },
+        },
+        "goto" => match file(1) {
+            None => json!("no-file"),
+            Some(f) => match an.goto_definition(FilePosition::new(f, TextSize::from(num(2)))) {
+                None => Value::Null,
+                Some(r) => fr(fs, r),
+            },
+        },
+        "references" => match file(1) {
+            None => json!("no-file"),
+            Some(f) => match an.references(FilePosition::new(f, TextSize::from(num(2)))) {
+                None => Value::Null,
+                Some(v) => Value::Array(v.into_iter().map(|r| fr(fs, r)).collect()),
+            },
+        },
+        "hover" => match file(1) {
+            None => json!("no-file"),
+            Some(f) => match an.hover(FilePosition::new(f, TextSize::from(num(2)))) {
+                None => Value::Null,
+                Some(h) => json!({"signature": h.signature, "document": h.document}),
+            },
+        },
+        "inlay_hint" => match file(1) {
+            None => json!("no-file"),
+            Some(f) => {
+                let r = FileRange::new(f, TextRange::new(TextSize::from(num(2)), TextSize::from(num(3).max(num(2)))));
+                match an.inlay_hint(r) {
+                    None => Value::Null,
+                    Some(v) => Value::Array(
+                        v.iter()
+                            .map(|h| json!([u32::from(h.position), h.label, format!("{:?}", h.kind)]))
+                            .collect(),
+                    ),
+                }
+            }
+        },
+        "completion" => match file(1) {
+            None => json!("no-file"),
+            Some(f) => {
+                let trig = q[3].as_str().map(|s| s.to_string());
+                match an.completion(FilePosition::new(f, TextSize::from(num(2))), trig) {
+                    None => Value::Null,
+                    Some(v) => Value::Array(
+                        v.iter()
+                            .map(|c| json!([c.label, c.insert_text_snippet, format!("{:?}", c.kind)]))
+                            .collect(),
+                    ),
+                }
+            }
+        },
+        _ => json!("bad-query"),
+    }
+}
+
+pub fn build(spec: &Value) -> (AnalysisHost, MemFs, FileId) {
+    let mut fs = MemFs::default();
+    if let Some(files) = spec["files"].as_object() {
+        for (p, c) in files {
+            fs.files.insert(FilePath::from(Path::new(p)), c.as_str().unwrap_or("").to_string());
+        }
+    }
+    match spec["include_dir"].as_str() {
+        Some(d) => std::env::set_var("INCLUDE_DIR", d),
+        None => std::env::remove_var("INCLUDE_DIR"),
+    }
+    let rootp = spec["root"].as_str().unwrap_or("/main.td").to_string();
+    let root = fs.assign_or_get_file_id(FilePath::from(Path::new(&rootp)));
+    let mut host = AnalysisHost::new();
+    let text = fs.files.get(&FilePath::from(Path::new(&rootp))).cloned().unwrap_or_default();
+    host.set_file_content(root, Arc::from(text.as_str()));
+    host.set_root_file(&mut fs, root);
+    (host, fs, root)
+}
+
+pub fn run(rest: &str) -> String {
+    let spec: Value = match serde_json::from_str(rest) {
+        Ok(v) => v,
+        Err(e) => return format!("bad-json {}", e),
+    };
+    let (host, fs, _root) = build(&spec);
+    let an = host.analysis();
+    let mut out = Vec::new();
+    if let Some(qs) = spec["queries"].as_array() {
+        for q in qs {
+            let r = std::panic::catch_unwind(std::panic::AssertUnwindSafe(|| query(&an, &fs, q)));
+            out.push(match r {
+                Ok(v) => v,
+                Err(e) => {
+                    let msg = e
+                        .downcast_ref::<&str>()
+                        .map(|s| s.to_string())
+                        .or_else(|| e.downcast_ref::<String>().cloned())
+                        .unwrap_or_else(|| "?".into());
+                    json!({ "panic": msg })
+                }
+            });
+        }
+    }
+    Value::Array(out).to_string()
+}
